@@ -3,8 +3,10 @@
       (all-exits clause `partial_genuine`, invariants `pairing` and `E >= 0`)
   L4  retry off: an input is dropped only when the worker it was being handed to died: obligation `drop` at every call of
       handle_unused_data, and try_enqueue's precondition `worker.id not in _closed` at every call site
-  L1/L2 (PoolError only when every worker is closed) need the progress invariant J of DESIGN.md (idle live worker ==> nothing
-      left to hand out); it is NOT proved in this round - see ASSUMPTIONS."""
+  L1/L2 PoolError only when every worker is closed: the progress invariant J (a live worker with nothing pending exists only if
+      nothing is left to hand out, or the user enqueue function refused) is carried through every closure (preserves_J / own_J /
+      J_all) and the main loop; PoolError's condition follows from J at loop exit.  Under a refusing enqueue_fn the strict clause
+      does not hold: known finding F-C08-2."""
 from . import C07 as _c07
 from . import pool, common
 
@@ -12,14 +14,22 @@ ID = 'C08'
 MIN_OBLIGATIONS = 50
 TRUSTED = _c07.TRUSTED
 ASSUMPTIONS = _c07.ASSUMPTIONS + [
-    'C08.L1/L2 ("PoolError only if every worker has died or been closed") is not decided by this check: it needs the inductive progress invariant J (DESIGN.md, C08) which was not completed; on the unchanged tree the clause is known to fail for a refusing enqueue_fn (design probe P-15)',
+    'T1 (sum abstraction): each pending list is at most as long as the sum of all of them (instantiated for the arbitrary worker w0 at the PoolError site)',
     'a user enqueue_fn that refuses an input while retry is off drops that input by the user\'s own choice; L4 treats it as handed',
 ]
 MUTANTS = _c07.MUTANTS + [
     ('pyworkers/pool.py', "                        if worker.id not in self._closed:\n                            more_data = try_enqueue(worker)", "                        if True:\n                            more_data = try_enqueue(worker)", 'first_enqueue hands inputs to workers already closed (dropped silently when retry is off)'),
+    ('pyworkers/pool.py', "                while self._retries:\n                    idle = get_next_idle_worker()", "                while False:\n                    idle = get_next_idle_worker()", 'inputs of a dead worker are not re-dispatched to idle workers: PoolError while workers are alive and idle'),
+    ('pyworkers/pool.py', "                if worker.id not in self._closed: # this is very unlikely to be False, but hypothetically can happen with a custom results_callback etc.\n                    logger.debug('Trying to enqueue new data for {}', worker)\n                    try_enqueue(worker)", "                if False:\n                    try_enqueue(worker)", 'a worker that delivered a result is not refilled'),
+    ('pyworkers/pool.py', "                            more_data = try_enqueue(worker)\n                            if not more_data:\n                                return", "                            more_data = try_enqueue(worker)\n                            return", 'first_enqueue stops after the first worker'),
     ('pyworkers/pool.py', "            raise PoolError('Pool failed to process the whole input - all workers have died', partial_results=(ret if return_results else None))", "            raise PoolError('Pool failed to process the whole input - all workers have died', partial_results=(ret + self._retries if return_results else None))", 'partial results padded with unprocessed inputs'),
 ]
-build = _c07.build
+
+
+def build(ex):
+    return _c07.build(ex, strict_poolerror=True)
+
+
 replay = _c07.replay
 
 
